@@ -100,6 +100,9 @@ type Engine struct {
 	fallback        map[string]*Solver
 	FallbackQueries int
 	FallbackDecided int
+	// PropRefuted counts the branch sides refuted by propagation after the solvers answered unknown.
+	PropRefuted int
+	noFallback  bool
 }
 
 // Secp256k1N is the order of secp256k1 (default modulus).
@@ -168,7 +171,7 @@ func NewEngine(opt Options) (*Engine, error) {
 // lazily). `unknown` from all of them stays unknown (inconclusive, never success).
 func (e *Engine) check(script string, want []string) (Verdict, map[string]string) {
 	v, vals := e.solver.Check(script, want)
-	if v != Unknown {
+	if v != Unknown || e.noFallback {
 		return v, vals
 	}
 	for _, name := range []string{"z3-new", "cvc5", "z3"} {
@@ -232,7 +235,7 @@ func (e *Engine) Close() {
 // SolverStats summarises solver usage.
 func (e *Engine) SolverStats() map[string]any {
 	m := map[string]any{"decide_queries": e.DecideQueries, "valid_queries": e.ValidQueries, "seeded_sat": e.SeededSat, "open_sat": e.OpenSat, "syntactic_valid": e.SyntacticValid,
-		"raw_checks": e.RawChecks, "raw_confirmed": e.RawConfirmed, "raw_unknown": e.RawUnknown, "raw_disagree": e.RawDisagree, "raw_nodes": e.RawNodes}
+		"raw_checks": e.RawChecks, "raw_confirmed": e.RawConfirmed, "raw_unknown": e.RawUnknown, "raw_disagree": e.RawDisagree, "raw_nodes": e.RawNodes, "branch_sides_refuted_by_propagation_after_solver_unknown": e.PropRefuted}
 	if e.rawSolver != nil {
 		m["raw_solver_s"] = e.rawSolver.Time.Seconds()
 	}
@@ -287,11 +290,19 @@ func IsEnginePanic(x any) bool {
 type Run struct {
 	// mu serialises the entry points used by library code: some library code (sigand) runs
 	// sub-protocols in goroutines that sample randomness and compare elements concurrently.
-	mu       sync.Mutex
-	eng      *Engine
-	q        *big.Int
-	field    *Field
-	group    *Group
+	mu      sync.Mutex
+	eng     *Engine
+	q       *big.Int
+	field   *Field
+	group   *Group
+	group2  *Group2
+	target  *TargetGroup
+	coords2 []*coordEntry
+	// hash-to-group outputs per source group: the discrete logs of outputs for distinct inputs are
+	// assumed pairwise distinct (random-oracle idealisation: a collision has probability 1/q)
+	hashVars map[byte][]*Poly
+	nonzero  []nonzeroPoly
+	hashSeen map[string]bool
 	vars     map[string]*varInfo // shared by all runs of one exploration (stable ids across re-execution)
 	byID     *[]*varInfo
 	script   []scriptLit // literals pre-asserted for this path
@@ -465,6 +476,36 @@ func (r *Run) newVarL(name string) *Poly {
 	return r.newVar(name)
 }
 
+const hashExplicit = 24
+
+// noteHashVar records a hash-to-group output (caller holds r.mu) and adds, for a new input, the path
+// literals "its discrete log differs from 0, 1 and from every earlier hash output of this group".
+func (r *Run) noteHashVar(kind byte, name string, p *Poly) {
+	if r.concrete {
+		return
+	}
+	if r.hashSeen == nil {
+		r.hashSeen, r.hashVars = map[string]bool{}, map[byte][]*Poly{}
+	}
+	if r.hashSeen[name] {
+		return
+	}
+	r.hashSeen[name] = true
+	for _, c := range []int64{0, 1} {
+		r.addPath(Not(simplifyEqZ(p.sub(polyConst(big.NewInt(c), r.q), r.q))))
+	}
+	// explicit pairwise literals for the first hashExplicit outputs of a group; beyond that the
+	// distinctness is implicit (models and witnesses are checked against it and only violated pairs
+	// are asserted, like the distinctness of interned encodings): protocols with thousands of
+	// hash-to-curve calls (ECBBOT) would otherwise pay O(n²) literals
+	if len(r.hashVars[kind]) < hashExplicit {
+		for _, prev := range r.hashVars[kind] {
+			r.addPath(Not(simplifyEqZ(p.sub(prev, r.q))))
+		}
+	}
+	r.hashVars[kind] = append(r.hashVars[kind], p)
+}
+
 // ConstF returns a concrete field element.
 func (r *Run) ConstF(v *big.Int) *F { return &F{f: r.field, p: polyConst(v, r.q)} }
 
@@ -518,6 +559,7 @@ func (r *Run) norm(p Pred) Pred {
 	if len(r.sigma) > 0 {
 		out = out.mapPolys(r.normPoly)
 	}
+	out = r.splitKnownFactors(out)
 	out = r.withFacts(out)
 	return out
 }
@@ -592,6 +634,7 @@ func (r *Run) propagate() {
 			if len(r.sigma) > 0 {
 				n = n.mapPolys(r.normPoly)
 			}
+			n = r.splitKnownFactors(n)
 			n = r.withFactsExcept(n)
 			if r.assertFact(n) {
 				changed = true
@@ -645,7 +688,86 @@ func (r *Run) assertFact(p Pred) bool {
 	}
 	r.facts[k] = true
 	r.learn(p)
+	if n, ok := p.(pNot); ok {
+		if e, ok := n.x.(pEqZ); ok && len(e.p.t) >= 2 && len(r.nonzero) < 256 {
+			vs := map[int]bool{}
+			e.p.varSet(vs)
+			r.nonzero = append(r.nonzero, nonzeroPoly{p: e.p, lead: e.p.leadMono(), vars: vs, deg: e.p.degree()})
+		}
+	}
 	return true
+}
+
+// nonzeroPoly is a polynomial (two or more terms) known to be non-zero on the path.
+type nonzeroPoly struct {
+	p    *Poly
+	lead []int
+	vars map[int]bool
+	deg  int
+}
+
+// splitKnownFactors rewrites every atom P ≡ 0 of degree ≥ 2 whose polynomial is exactly divisible by
+// a polynomial A known to be non-zero on this path into (P/A) ≡ 0 (GF(q) is an integral domain).
+// The solvers do not know that q is prime and answer `unknown` on e.g. s·(h−h') ≡ 0 with s a
+// linear form, s ≢ 0, h ≢ h'.
+func (r *Run) splitKnownFactors(p Pred) Pred {
+	if len(r.nonzero) == 0 {
+		return p
+	}
+	switch v := p.(type) {
+	case pEqZ:
+		poly, changed := v.p, false
+		if len(poly.t) > 128 {
+			return p
+		}
+		for again := true; again; {
+			again = false
+			deg := poly.degree()
+			if deg < 2 {
+				break
+			}
+			lp := poly.leadMono()
+			pv := map[int]bool{}
+			poly.varSet(pv)
+		nextNZ:
+			for _, nz := range r.nonzero {
+				if len(nz.p.t) > len(poly.t) || nz.deg >= deg || len(nz.vars) > len(pv) {
+					continue
+				}
+				for x := range nz.vars {
+					if !pv[x] {
+						continue nextNZ
+					}
+				}
+				if _, ok := monoDiv(lp, nz.lead); !ok {
+					continue
+				}
+				if b, ok := poly.divExact(nz.p, r.q); ok {
+					poly, changed, again = b, true, true
+					break
+				}
+			}
+		}
+		if !changed {
+			return p
+		}
+		return simplifyEqZ(poly)
+	case pNot:
+		return Not(r.splitKnownFactors(v.x))
+	case pAnd:
+		xs := make([]Pred, len(v.xs))
+		for i, x := range v.xs {
+			xs[i] = r.splitKnownFactors(x)
+		}
+		return And(xs...)
+	case pOr:
+		xs := make([]Pred, len(v.xs))
+		for i, x := range v.xs {
+			xs[i] = r.splitKnownFactors(x)
+		}
+		return Or(xs...)
+	}
+	return p
 }
 
 func (r *Run) normPoly(p *Poly) *Poly {
@@ -940,11 +1062,33 @@ func (r *Run) decideL(p Pred) bool {
 			canF = Sat
 		}
 	}
+	// Each side: the primary solver first; if it answers unknown, a propagation-only refutation
+	// (substitution of solved linear equalities, splitting of factors known to be non-zero, fact
+	// lookup: a contradiction derived this way proves unsatisfiability, nothing is concluded
+	// otherwise); then the fallback solvers.
+	side := func(q Pred) Verdict {
+		// first attempt: primary solver only, short timeout (almost every branch query is answered
+		// in milliseconds; the ones that are not are typically products the solver cannot refute)
+		r.eng.noFallback = true
+		r.eng.solver.shortM = 3000
+		v, _ := r.solve([]Pred{q}, false, true)
+		r.eng.solver.shortM = 0
+		r.eng.noFallback = false
+		if v != Unknown {
+			return v
+		}
+		if r.refuteByPropagation(q) {
+			r.eng.PropRefuted++
+			return Unsat
+		}
+		v, _ = r.solve([]Pred{q}, false, false)
+		return v
+	}
 	if canT != Sat {
-		canT, _ = r.solve([]Pred{p}, false, true)
+		canT = side(p)
 	}
 	if canF != Sat {
-		canF, _ = r.solve([]Pred{Not(p)}, false, true)
+		canF = side(Not(p))
 	}
 	switch {
 	case canT == Unknown || canF == Unknown:
@@ -971,6 +1115,56 @@ func (r *Run) decideL(p Pred) bool {
 	r.addPath(p)
 	r.out.Forks++
 	return true
+}
+
+// refuteByPropagation reports whether path ∧ generic ∧ p is contradictory by propagation. The
+// run's state is restored afterwards.
+func (r *Run) refuteByPropagation(p Pred) bool {
+	if r.poisonKind != "" {
+		return false
+	}
+	facts := make(map[string]bool, len(r.facts))
+	for k, v := range r.facts {
+		facts[k] = v
+	}
+	sigma := make(map[int]*Poly, len(r.sigma))
+	for k, v := range r.sigma {
+		sigma[k] = v
+	}
+	nz, pathN := len(r.nonzero), len(r.path)
+	propDone, propSigma := r.propDone, r.propSigma
+	unstable := append([]int{}, r.propUnstable...)
+	wOK := r.witnessOK
+	var addedKeys []string
+	add := func(q Pred) {
+		k := q.key()
+		if r.pathK[k] {
+			return
+		}
+		r.pathK[k] = true
+		addedKeys = append(addedKeys, k)
+		r.path = append(r.path, q)
+	}
+	add(p)
+	for _, g := range r.generic {
+		add(g)
+	}
+	r.propagate()
+	refuted := r.poisonKind == "abort"
+	// restore
+	r.poisonKind, r.poisonMsg = "", ""
+	for _, k := range addedKeys {
+		delete(r.pathK, k)
+	}
+	r.path = r.path[:pathN]
+	r.facts, r.sigma = facts, sigma
+	if len(sigma) == 0 {
+		r.sigma = nil
+	}
+	r.nonzero = r.nonzero[:nz]
+	r.propDone, r.propSigma, r.propUnstable = propDone, propSigma, unstable
+	r.witnessOK = wOK
+	return refuted
 }
 
 // pathWitness returns an assignment satisfying the current path and all genericity
@@ -1259,6 +1453,8 @@ func (e *Engine) newRun(out *Outcome, script []scriptLit, vars map[string]*varIn
 		handleIx: map[string]int{}, internKey: map[string]int{}, out: out, readers: map[string]*Reader{}, script: script, concrete: e.opt.Concrete != nil}
 	r.field = &Field{run: r, q: e.Q}
 	r.group = &Group{run: r, f: r.field}
+	r.group2 = &Group2{run: r, f: r.field}
+	r.target = &TargetGroup{run: r, f: r.field}
 	r.depth = len(script)
 	return r
 }
